@@ -50,9 +50,11 @@ def _scenario(draw, tier):
                 ops.append(["restart"])
         elif kind in ("gibbs", "metropolis"):
             i = draw(st.integers(0, cfg["d"] - 1))
-            which = draw(st.sampled_from(["bounds", "bounds", "nonneg", "remove"]))
+            which = draw(st.sampled_from(["bounds", "bounds", "nonneg", "remove", "bad"]))
             if which == "bounds":
                 ops.append(["set_bounds", i, draw(st.sampled_from([0.5, 2.0, 10.0])), draw(st.sampled_from([0.3, 0.5, 0.9]))])
+            elif which == "bad":
+                ops.append(["bad_bounds", i, draw(st.sampled_from([0.0, 0.5, 3.0]))])
             elif which == "nonneg":
                 ops.append(["set_nonneg", i, True])
             else:
@@ -272,6 +274,9 @@ def apply_one(h, op):
             lib_call("set_non_negative", h.chain.set_non_negative, op[1], True)
     elif name == "remove_bounds":
         lib_call("set_boundaries(remove)", h.chain.set_boundaries, op[1], (0.0, 1.0), remove=True)
+    elif name == "bad_bounds":
+        cur = float(np.asarray(h.chain.get_parameter(op[1], burn=0))[-1])
+        lib_call("set_boundaries(rejected)", h.chain.set_boundaries, op[1], (cur + op[2], cur - op[2]))
 
 
 def describe():
